@@ -1147,6 +1147,32 @@ def nowrap_assign(src, log, lhs):
     return _apply(src, edits)
 
 
+def nf64add(src, log, name):
+    """`NAME[..][..] + OPERAND` -> `vx_f64_add(NAME[..][..], OPERAND)` where OPERAND is an identifier or a postfix chain
+    (rule N3 for the float cells of one named table: Verus has no specification for `f64 + f64`)"""
+    toks = lex(src)
+    edits = []
+    i = 0
+    while i < len(toks):
+        if toks[i].text == name and i + 1 < len(toks) and toks[i + 1].text == "[" and (i == 0 or toks[i - 1].text != "."):
+            j = i + 1
+            while j < len(toks) and toks[j].text == "[":
+                j = toks[j].mate + 1
+            if j < len(toks) and toks[j].text == "+" and j + 1 < len(toks) and toks[j + 1].kind == "ident":
+                # operand: identifier followed by index / call / field suffixes
+                e = j + 2
+                while e < len(toks) and (toks[e].text in ("[", "(") or (toks[e].text == "." and toks[e + 1].kind == "ident")):
+                    e = toks[e].mate + 1 if toks[e].text in ("[", "(") else e + 2
+                lhs = src[toks[i].start:toks[j - 1].end]
+                rhs = src[toks[j + 1].start:toks[e - 1].end]
+                edits.append((toks[i].start, toks[e - 1].end, f"vx_f64_add({lhs}, {rhs})"))
+                log.append(f"nf64add: `{lhs} + {rhs}` -> vx_f64_add")
+                i = e
+                continue
+        i += 1
+    return _apply(src, edits)
+
+
 def normalise(src, rules, log, ctx=None):
     ctx = ctx or {}
     for r in rules:
@@ -1178,6 +1204,8 @@ def normalise(src, rules, log, ctx=None):
             src = nblockpush(src, log)
         elif r == "nconcat2":
             src = nconcat2(src, log)
+        elif r.startswith("nf64add:"):
+            src = nf64add(src, log, r.split(":", 1)[1])
         elif r.startswith("nowrap:"):
             src = nowrap_assign(src, log, r.split(":", 1)[1])
         elif r == "nvis":
